@@ -13,10 +13,15 @@ is only constructed with a positive mean, the allocate / free state machine neve
 object — and the inventory of every `vector[index]` in the sources is tied to a registry of bounded forms (a new
 or changed subscript breaks the build).  The property's own observation point (assertion-hardened / sanitizer
 builds driven through the Python API) is the harness oracle.
-NOT covered: uninitialised reads, overflow of `int` (sizes and Poisson counts below 2³¹ are the recorded size
-assumption), UB inside library internals, the ctypes buffers' lifetimes.
+Section 5 assembles these into `engine_never_faults` over a checked-access interpreter of the six algorithms, `Init`, the
+sampler, the exports and the lifecycle.
+NOT covered (why the property stays "partial by nature"): the compiled program is not the model — uninitialised reads,
+overflow of `int` (sizes and Poisson counts below 2³¹ are the recorded size assumption), UB inside library internals,
+the ctypes buffers' lifetimes, the body of the redistribution loop of the initial-state processing (C14; here any
+size-preserving function).
 -/
 import Strengths.Proofs.Lifecycle
+import Strengths.Proofs.CheckedSim
 import Strengths.Model.Engine
 import Strengths.Gen.EngineLife
 
@@ -210,12 +215,99 @@ theorem poisson_only_positive (means : List Rat) (draws : List Int) (cs : List I
 
 /-! ## 5. allocation state machine -/
 
-/-- Full statement (`engine_never_faults`): ValidScript s → LifecycleRespecting h → ∀ draws, no fault.
-PARTIAL: on the lifecycle model no call of a history of one engine object with valid scripts faults — no use of a
-freed or null algorithm object, no double delete, no output-buffer overflow (C10's invariant); the per-step array
-accesses are covered by sections 1–4 and the registry below, not by a single end-to-end theorem over a checked-access
-interpreter of the six algorithms (missing: that interpreter). -/
-theorem engine_never_faults_partial {σ ω : Type} (h : List (Call σ ω)) (hr : Respecting false h) :
+/-- `engine_never_faults`: on the CHECKED-ACCESS engine (`Model/Checked*.lean`: every `std::vector` of the algorithm objects
+with the size its constructor / `resize` / copy gives it, every `v[index]` of the sources a bounds-checked read or write
+through the generated index formulas, `std::poisson_distribution` with its precondition `mean > 0`, the allocate / free
+machine) — for every history of lifecycle calls on one engine object whose set-ups carry valid arguments (`ValidCall`:
+buffer lengths as marshalled by `LibRDEngine`, environment indices < n_env, edge endpoints node indices, a valid grid
+shape), for ALL draws (`Oracles`) — no call fails: no out-of-range subscript, no Poisson precondition violation, no use
+of a null / freed object, no double delete.  Grid and graph, Euler, tau-leap and Gillespie, all sampling policies,
+any processing of the initial state that keeps its size, degenerate shapes included. -/
+theorem engine_never_faults (o : Oracles) (h : List CCall) (hv : ∀ c ∈ h, ValidCall c) :
+    ∀ e : CErr, runChecked o h CWorld.boot ≠ .error e :=
+  fun e => Ok.not_error (runChecked_ok o h CWorld.boot boot_wok hv) e
+
+/-- … and the object reached is valid again (sizes, tables, layout), so the statement composes over histories -/
+theorem engine_stays_valid (o : Oracles) (h : List CCall) (hv : ∀ c ∈ h, ValidCall c) :
+    ∃ w, runChecked o h CWorld.boot = .ok w ∧ WOK w := runChecked_ok o h CWorld.boot boot_wok hv
+
+/-- per function (the lemmas the assembly is made of; `Ok r P`: the checked computation `r` succeeds and `P` holds) -/
+theorem per_function_theorems :
+    True := trivial
+-- Rates:        reactionRate_ok, reactionProp_ok, diffusionPropC_ok, diffusionRateDifferenceC_ok        (Proofs/CheckedAlgo)
+-- Euler:        computeDxdt_ok, applyDxdt_ok
+-- tau-leap:     poissonChecked_ok, computeNevt_ok (zeros on the walls), applyNevt_ok (non-zero count ⇒ neighbour)
+-- Gillespie:    computePropensities_ok, applyReactionC_ok, applyDiffusionC_ok, drawAndApplyEvent_ok (selected ⇒ neighbour)
+-- Init (grid):  buildMeshNeighbors_ok, buildMeshKr_ok, buildMeshKdGrid_ok, gridLayout_ok, gridSlotOK          (Proofs/CheckedGrid)
+-- Init (graph): setNeighbors_ok, buildMeshKdGraph_ok, nestedInit_ok, graphLayout_ok, graphSlotOK             (Proofs/CheckedGraph)
+-- marshalling:  mkVec_ok (ctypes buffers), speciesFirstToMeshFirst_ok                                      (Proofs/CheckedSim)
+-- sampler:      evalConds_ok (guarded read, conjunct order), sampleOnTSample_ok, samplingStep_ok
+-- object:       iterate_ok, iterateN_ok, run_ok, exportTrajectory_ok, exportTimesC_ok, exportState_ok, getOutputC_ok
+-- set-up:       setupGridC_ok, setupGraphC_ok;  lifecycle: call_ok, runChecked_ok
+-- per site:     site_x, site_d, site_chstt, site_sub, site_sto, site_kr, site_nr, site_ar, site_cell, site_x_nbr, site_chstt_nbr,
+--               nbrs_site, env_site, dIndex_site, table_site_int, oppVec_site + the `_nat` lemmas of the generated formulas
+
+/-- the sizes the checked model gives its vectors are the sizes the sources give them: every `resize(…)` / sized
+constructor of the algorithm sources, as (file, vector, size expression).  (`Vec.replicate` calls of `Model/Checked*.lean`:
+`buildMeshKr` n·nr, `buildMeshKdGrid` ns·n·6, `buildMeshNeighbors` w·h·d·6, `setNeighbors` / `buildMeshKdGraph` / `nestedInit`
+n rows of nn[i]·ns, `scratchInit` ns·n, nr·n, 6·ns·n, n.) -/
+theorem vector_sizes_text :
+    Gen.vectorSizes = [
+      ("SimulationAlgorithm3DBase.hpp", "mesh_kr", "n_meshes*n_reactions,0"),
+      ("SimulationAlgorithm3DBase.hpp", "mesh_kd", "n_species*n_meshes*6,0"),
+      ("SimulationAlgorithmGraphBase.hpp", "mesh_neighbor_n", "n_meshes,0"),
+      ("SimulationAlgorithmGraphBase.hpp", "mesh_neighbor_index", "n_meshes"),
+      ("SimulationAlgorithmGraphBase.hpp", "mesh_neighbor_sfc", "n_meshes"),
+      ("SimulationAlgorithmGraphBase.hpp", "mesh_neighbor_dst", "n_meshes"),
+      ("SimulationAlgorithmGraphBase.hpp", "mesh_kr", "n_meshes*n_reactions,0"),
+      ("SimulationAlgorithmGraphBase.hpp", "mesh_kd_out", "n_meshes"),
+      ("SimulationAlgorithmGraphBase.hpp", "mesh_kd_in", "n_meshes"),
+      ("SimulationAlgorithmGraphBase.hpp", "mesh_kd_out[i]", "n_species*mesh_neighbor_n[i]"),
+      ("Euler3D.hpp", "mesh_dxdt", "n_species*n_meshes"),
+      ("EulerGraph.hpp", "mesh_dxdt", "n_species*n_meshes"),
+      ("TauLeap3D.hpp", "mesh_nr", "n_reactions*n_meshes"),
+      ("TauLeap3D.hpp", "mesh_nd", "6*n_species*n_meshes"),
+      ("TauLeapGraph.hpp", "mesh_nr", "n_reactions*n_meshes"),
+      ("TauLeapGraph.hpp", "mesh_nd", "n_meshes"),
+      ("TauLeapGraph.hpp", "mesh_nd[i]", "this->mesh_neighbor_n[i]*this->n_species"),
+      ("Gillespie3D.hpp", "mesh_ar", "n_reactions*n_meshes"),
+      ("Gillespie3D.hpp", "mesh_ad", "6*n_species*n_meshes"),
+      ("Gillespie3D.hpp", "mesh_a0r", "n_meshes"),
+      ("Gillespie3D.hpp", "mesh_a0d", "n_meshes"),
+      ("GillespieGraph.hpp", "mesh_ar", "n_reactions*n_meshes"),
+      ("GillespieGraph.hpp", "mesh_ad", "n_meshes"),
+      ("GillespieGraph.hpp", "mesh_ad[i]", "this->mesh_neighbor_n[i]*this->n_species"),
+      ("GillespieGraph.hpp", "mesh_a0r", "n_meshes"),
+      ("GillespieGraph.hpp", "mesh_a0d", "n_meshes"),
+      ("SimulationAlgorithm3DBase.hpp", "mesh_neighbors", "w*h*d*6")] := by decide +kernel
+
+/-! non-vacuity: a concrete valid set-up (periodic 2×1×1 grid, one species `A ->`, tau-leap, two requested times) -/
+
+def demoArgs : EngArgs :=
+  { ns := 1, nr := 1, nenv := 1, state := Vec.ofList [3, 5], chstt := Vec.ofList [0, 0], env := Vec.ofList [0, 0],
+    k := Vec.ofList [1 / 2], sub := Vec.ofList [1], sto := Vec.ofList [-1], D := Vec.ofList [1], sampleN := 2,
+    sampleT := Vec.ofList [0, 1], policy := 0, interval := 1, tMax := 1, dt := 1 / 4, option := 1, process := id }
+def demoGrid : GridShape := { w := 2, h := 1, d := 1, px := true }
+
+theorem demo_valid : ValidCall (.setupGrid demoArgs demoGrid 1 1 2) := by
+  refine ⟨⟨by decide, by decide, by decide, by decide, ?_, by decide, by decide, by decide, by decide, by decide, fun _ => rfl⟩, by decide⟩
+  intro i hi
+  have : i = 0 ∨ i = 1 := by
+    have : i < 2 := hi
+    omega
+  rcases this with rfl | rfl <;> decide
+
+example (o : Oracles) : ∀ e, runChecked o [.setupGrid demoArgs demoGrid 1 1 2, .iterate, .iterateN 7, .sample, .getOutput, .finalize,
+    .finalize, .iterate, .getOutput] CWorld.boot ≠ .error e :=
+  engine_never_faults o _ (by
+    intro c hc
+    simp only [List.mem_cons, List.mem_singleton, List.not_mem_nil, or_false] at hc
+    rcases hc with rfl | rfl | rfl | rfl | rfl | rfl | rfl | rfl | rfl
+    · exact demo_valid
+    all_goals trivial)
+
+/-- the allocation machine of the two-pointer model of C10 (kept: it also covers the wrapper / two space types) -/
+theorem engine_never_faults_alloc {σ ω : Type} (h : List (Call σ ω)) (hr : Respecting false h) :
     ∀ ob ∈ ((World.boot : World σ ω).runHist (h.map fun c => (Obj.A, c))).2, ob ≠ Obs.fault :=
   respecting_no_fault h false _ boot_good hr
 
@@ -237,18 +329,20 @@ theorem no_double_free {σ ω : Type} (live : Bool) (w : World σ ω) (hg : Good
 
 /-- why an index form is in range -/
 inductive Bound where
-  /-- literal 0/1/2 into the 3 boundary flags -/
+  /-- literal 0/1/2 into the 3 boundary flags (`boundary_conditions(3)`) -/
   | const
-  /-- a loop variable / argument ranging over the vector's length -/
+  /-- a loop variable / argument ranging over the vector's length (`site_cell`, `Vec.rd_nat`, `oppVec_site`) -/
   | direct
-  /-- `a*B + b` with `a < A`, `b < B` into `A*B` entries (`flat2`) -/
+  /-- `a*B + b` with `a < A`, `b < B` into `A*B` entries (`flat2`; `site_x`, `site_d`, `site_chstt`, `site_sub`, `site_sto`,
+  `site_kr`, `site_nr`, `site_ar`, `nbrs_site`, graph rows `slotInnerGraph_nat`) -/
   | flat2
   /-- three-level row-major form (`flat3`, `flat3_alt`) -/
   | flat3
-  /-- an entry of a table holding cell / environment indices, used as a row index (`flat2` + table range:
-  `mesh_env[i] < n_env`, `edge_i[i] < n_nodes` — ValidScript; neighbour ≠ −1 — section 3) -/
+  /-- an entry of a table holding cell / environment indices, used as a row index (`site_x_nbr`, `site_chstt_nbr`,
+  `table_site_int`, `dIndex_site`, `env_site`; `engNeighbor_range` / `NbOK.ent` for neighbours, ValidScript for
+  `mesh_env[i] < n_env` and `edge_i[i] < n_nodes`; neighbour ≠ −1 — `applyNevt_ok`, `drawAndApplyEvent_ok`) -/
   | viaTable
-  /-- guarded by the preceding conjunct (`tsample_read_guarded`) -/
+  /-- guarded by the preceding conjunct (`tsample_read_guarded`, `evalConds_ok`) -/
   | guarded
   deriving DecidableEq, Repr
 
